@@ -16,6 +16,10 @@ M = [
  ("C11", "rho-default-10", "config/_tabulation_factories.py", "cutoff_rho = 100.0", "cutoff_rho = 10.0"),
  ("C11", "revert-snap", "config/_config_parser.py", "nr = self._rows_for_step(cutoff, dr)", "nr = int((cutoff/dr) + 1)"),
  ("C11", "revert-truthy", "config/_config_parser.py", "if not nr is None and not dr is None and not cutoff is None:", "if nr and dr and cutoff:"),
+ ("C06", "zbl-ck1", "potentialfunctions.py", "Ck1=0.1818", "Ck1=0.1819"),
+ ("C06", "coul-const", "potentialfunctions.py", "return (qi * qj)/(4.0*math.pi*0.0055264*r)", "return (qi * qj)/(4.0*math.pi*0.0055624*r)"),
+ ("C06", "sqrt-scale", "potentialfunctions.py", "return G*math.sqrt(r)", "return G*math.sqrt(r)*1.0000001"),
+ ("C06", "morse-swap", "potentialfunctions.py", "def __call__(self, r, gamma, r_star, D):", "def __call__(self, r, r_star, gamma, D):"),
  ("C03", "setfl-nr-minus-1", "eam_tabulation.py", None, None),
 ]
 def main():
